@@ -28,6 +28,8 @@ type Stage struct {
 	// Layouts, if set: every kept behaviour is replayed once under EACH of these page layouts
 	// (instead of under one of the standard concretisations chosen per behaviour)
 	Layouts []sim.Layout
+	MinNs   int // if > 0, keep only behaviours in which some transaction sets the size to at least this many model pages
+	Workers int // parallel replays (0 = one per CPU); the lock-page layout needs gigabytes per replay
 }
 
 // Collect runs the stage; a model-level violation is an infrastructure failure (R2: the model is
@@ -49,6 +51,15 @@ func Collect(rep *core.Report, st Stage, seed int64) []Trace {
 			if st.LastIs != "" {
 				k := bytes.LastIndex(payload, []byte(`"a":"`))
 				if k < 0 || !bytes.HasPrefix(payload[k+5:], []byte(st.LastIs+`"`)) {
+					return
+				}
+			}
+			if st.MinNs > 0 {
+				ok := false
+				for k := st.MinNs; k <= 9 && !ok; k++ {
+					ok = bytes.Contains(payload, []byte(fmt.Sprintf(`"ns":%d`, k)))
+				}
+				if !ok {
 					return
 				}
 			}
@@ -84,10 +95,10 @@ func Collect(rep *core.Report, st Stage, seed int64) []Trace {
 // ReplayAll replays every trace under one configuration chosen per trace from cfgs (round-robin
 // offset by the seed) and records the monitor failures that belong to `prop`.
 func ReplayAll(rep *core.Report, prop string, traces []Trace, cfgs []Config, seed int64) {
-	replayAll(rep, prop, traces, cfgs, seed, false)
+	replayAll(rep, prop, traces, cfgs, seed, false, 0)
 }
 
-func replayAll(rep *core.Report, prop string, traces []Trace, cfgs []Config, seed int64, every bool) {
+func replayAll(rep *core.Report, prop string, traces []Trace, cfgs []Config, seed int64, every bool, nworkers int) {
 	if every && len(cfgs) > 1 {
 		// one job per (behaviour, configuration)
 		var all []Trace
@@ -107,6 +118,9 @@ func replayAll(rep *core.Report, prop string, traces []Trace, cfgs []Config, see
 	var mu sync.Mutex
 	other := map[string]int{}
 	workers := runtime.NumCPU()
+	if nworkers > 0 {
+		workers = nworkers
+	}
 	for w := 0; w < workers; w++ {
 		wg.Add(1)
 		go func() {
@@ -219,7 +233,7 @@ func Main(rep *core.Report, args *core.Args, prop string, stages []Stage) {
 			for i, l := range st.Layouts {
 				lc = append(lc, Config{Layout: l, Pager: sim.PagerOpts{Sector: 512, BigEndian: i%2 == 1}})
 			}
-			replayAll(rep, prop, traces, lc, args.Seed, true)
+			replayAll(rep, prop, traces, lc, args.Seed, true, st.Workers)
 			continue
 		}
 		ReplayAll(rep, prop, traces, cfgs, args.Seed)
